@@ -2241,3 +2241,8 @@ pub mod verif {
         any.program.as_str().to_string()
     }
 }
+
+#[cfg(all(kani, olson_sean_k_wax_verif))]
+mod verif_kani {
+    include!(concat!(env!("WAX_VERIF_DIR"), "/kani/lib.rs"));
+}
